@@ -27,7 +27,7 @@ pub fn bounds(tier: Tier) -> Bounds {
             e1_max_dups: env("VERIF_RAFT_E1_DUPS", 1) as u8,
             e1_max_appends: env("VERIF_RAFT_E1_APPENDS", 1) as u8,
             e1_state_cap: env("VERIF_RAFT_E1_CAP", 30_000_000),
-            e2_k: env("VERIF_RAFT_E2_K", 2) as u32,
+            e2_k: env("VERIF_RAFT_E2_K", 3) as u32,
             e2_max_appends: env("VERIF_RAFT_E2_APPENDS", 3) as u8,
             e2_walk_cap: env("VERIF_RAFT_E2_WALK", 600) as u32,
             e2_state_cap: env("VERIF_RAFT_E2_CAP", 40_000_000),
@@ -38,7 +38,7 @@ pub fn bounds(tier: Tier) -> Bounds {
             e1_max_dups: env("VERIF_RAFT_E1_DUPS", 2) as u8,
             e1_max_appends: env("VERIF_RAFT_E1_APPENDS", 2) as u8,
             e1_state_cap: env("VERIF_RAFT_E1_CAP", 60_000_000),
-            e2_k: env("VERIF_RAFT_E2_K", 3) as u32,
+            e2_k: env("VERIF_RAFT_E2_K", 4) as u32,
             e2_max_appends: env("VERIF_RAFT_E2_APPENDS", 3) as u8,
             e2_walk_cap: env("VERIF_RAFT_E2_WALK", 600) as u32,
             e2_state_cap: env("VERIF_RAFT_E2_CAP", 150_000_000),
@@ -82,7 +82,7 @@ pub fn run(args: &Args) -> i32 {
     // ---- E2
     let e2cfg = E2Cfg { k: b.e2_k, max_appends: b.e2_max_appends, walk_cap: b.e2_walk_cap, state_cap: b.e2_state_cap, term_cap: b.e2_term_cap };
     let t1 = std::time::Instant::now();
-    let s2 = run_e2(&e2cfg, &col, args.seed, Some(&distinct));
+    let s2 = run_e2(&bases, &e2cfg, &col, args.seed, Some(&distinct));
     eprintln!("E2 {:?} {:.1}s", s2, t1.elapsed().as_secs_f64());
     if s2.capped || s2.walk_cap_hits > 0 {
         exhaustive = false;
